@@ -155,6 +155,11 @@ def usable(x):
     return True
 
 
+def flag_type_ok(x):
+    import pyerrors as pe
+    return not isinstance(x, pe.Obs) or type(x.reweighted) is bool
+
+
 def taint_of(x):
     import pyerrors as pe
     if isinstance(x, pe.CObs):
@@ -328,13 +333,32 @@ def step(ctx, op, pool, a, b, plan, pe):
         e = "Mg"
         nums = rnd.sample([0, 1, 2, 5, 10], op["R"])
         parts = []
+        rw = rnd.random() < 0.4          # merge replicas that were reweighted one by one
         for k in nums:
             n = rnd.randint(5, 16)
             chain = {"name": "%s|r%d" % (e, k), "n": n, "idl": objs.gen_idl(rnd, n)}
-            parts.append(primary([chain], op["seed"] + k))
+            part = primary([chain], op["seed"] + k)
+            if rw and (k != nums[0] or rnd.random() < 0.7):
+                part = pe.reweight(primary([chain], op["seed"] + 100 + k, positive=True), [part])[0]
+            parts.append(part)
         res = pe.merge_obs(parts)
-        ctx.sig("merge", "R%d" % op["R"])
+        ctx.sig("merge", "R%d" % op["R"], "rw" if rw else "plain")
         check(ctx, res, "merge_obs", "-")
+        taint = any(taint_of(x) for x in parts)
+        ctx.compared += 1
+        if type(res.reweighted) is not bool or res.reweighted != taint:
+            ctx.violation("c04.reweighted_flag", "merge_obs", "-", "merged observable has reweighted=%r (%s), parts' flags OR to %r" % (res.reweighted, type(res.reweighted).__name__, taint))
+        else:
+            # the flag must survive what users do next with the merged observable
+            d1 = res * 2.0 + 1.0
+            if d1.reweighted != taint:
+                ctx.violation("c04.reweighted_flag", "merge_obs", "derived", "observable derived from the merged one has reweighted=%r, expected %r" % (d1.reweighted, taint))
+            try:
+                back = pe.input.json.import_json_string(pe.input.json.create_json_string(res), verbose=False)
+                if back.reweighted != taint:
+                    ctx.violation("c04.reweighted_flag", "merge_obs", "json", "json round trip of the merged observable gives reweighted=%r" % (back.reweighted,))
+            except Exception as e_:
+                ctx.violation("c04.no_result", "merge_obs", "json", "json export of the merged observable raised %s: %s" % (type(e_).__name__, str(e_)[:100]))
         return [res]
     if kind == "fit":
         ys = [obs_only(pool[(op["i"] + k) % len(pool)], pe) for k in range(op["npts"])]
